@@ -36,7 +36,7 @@ def media(ct):
 class Integration:
     """one integration with its dispatcher; register(methods) -> post(path, body, content_type)"""
 
-    def __init__(self, kind, path, status_by_error=None, endpoint='', endpoint_mode='plain', target='endpoint', spec=None):
+    def __init__(self, kind, path, status_by_error=None, endpoint='', endpoint_mode='plain', target='endpoint', spec=None, specs=None, mount=None):
         """endpoint: '' = the integration's main endpoint, '/x' = an additional endpoint added with add_endpoint (aiohttp, flask)"""
         self.kind = kind
         self.path = path
@@ -46,6 +46,9 @@ class Integration:
             kw['status_by_error'] = status_by_error
         if spec is not None:
             kw['spec'] = spec
+        if specs is not None:
+            kw['specs'] = specs
+        self.mount = mount
         if kind == 'aiohttp':
             self.rpc = ia.Application(path, **kw)
             self.dispatcher = self.rpc.dispatcher
@@ -88,7 +91,13 @@ class Integration:
             return
         self._ready = True
         if self.kind == 'flask':
-            self.rpc.init_app(self.app)
+            if self.mount:
+                # the extension lives on a blueprint that the application mounts under a url prefix
+                bp = flask.Blueprint('mounted_rpc', 'mounted_rpc')
+                self.rpc.init_app(bp)
+                self.app.register_blueprint(bp, url_prefix=self.mount)
+            else:
+                self.rpc.init_app(self.app)
             self.client = self.app.test_client()
         elif self.kind == 'werkzeug':
             self.client = werkzeug.test.Client(self.rpc)
